@@ -41,8 +41,13 @@ ASSUMPTIONS = [
     'substring search); x IN (subquery) is run by first running the subquery in the model and compiling `x IN <its items>` '
     '(what EvalConstantSubquery1D evaluates to; the inlined constant compares by value where the real node compares equal to '
     'every other IN-subquery, D25); a statement whose lowering is refused (IN over a column, FROM expressions on the Beancount '
-    'tables, scalar functions beyond the ten of Eval.v, folded constants that evaluate to NULL, types outside '
+    'tables, scalar functions beyond the 36 of Eval.v that Model/Typing.v types - the ten arithmetic/string ones and the total '
+    'functions of the C18 library: year month day quarter weekday date_diff date_part date(y,m,d) date(x) str(x) int(x) decimal(bool|Decimal) '
+    'root parent leaf round(int[, n]); the library functions that can raise (yearmonth date_add date_trunc date_bin splitcomp maxwidth '
+    'round(Decimal) decimal(str)) are refused because Eval.eval does not propagate exceptions -, folded constants that evaluate to NULL, types outside '
     'int/Decimal/str/date/bool) is counted as not lowerable, not compared',
+    'library functions in the end-to-end streams (C05 e2e:lib, C06 text-to-rows): strings are ASCII (int(str), date(str), upper/lower are the '
+    'ASCII restrictions of the Python operations, as for C18); round(int, n) is modelled for every n, Python needs memory for 10**-n',
     'translator tie (C05_source_*; Gen/SrcLookup.v, Gen/SrcCompiler.v regenerated from types.py / compiler.py on every run): '
     'trusted are the PyMini semantics, the translator rules K1-K11 of harness/vf/src_compiler.py (assert, overload signature '
     'equality as AnyType-aware list equality, itertools.product(*..), identity with a datatype, issubclass, `continue` as else-branch, '
